@@ -202,6 +202,19 @@ func (c *Controller) Await(p *Proc, timeout time.Duration) (label string, done b
 	return l, d, e
 }
 
+// StillLocked: a proc that was found waiting for a lock is still waiting for it (one look, no waiting).
+func (c *Controller) StillLocked(p *Proc) bool {
+	select {
+	case <-p.done:
+		return false
+	default:
+	}
+	if len(p.arrived) > 0 {
+		return false
+	}
+	return lockWait(WaitState(p.Gid))
+}
+
 // AwaitL is Await that also recognises a proc waiting for a lock held by another proc
 // (which is itself waiting at a call boundary): locked = true, the proc is neither enabled
 // nor done and must be awaited again after other procs have moved.
